@@ -103,6 +103,18 @@ Theorem C18_terminated_worker_is_final : forall c s l s',
 Proof. exact done_final. Qed.
 Print Assumptions C18_terminated_worker_is_final.
 
+(** The correspondence checker is sound by construction: a script it accepts
+    is the external projection ([observe]) of a run of the model, whose ghost
+    histories are the script's sends and receives; hence, by (a), the received
+    values of an accepted script are a prefix of its sent values. *)
+Theorem C18_accepted_script_is_model_run : forall c script,
+  model_accepts c script = true ->
+  exists ls s, run c init ls = Some s /\ observe c init ls = Some script /\
+    sent s = ext_sends script /\ rcvd s = ext_recvs script /\
+    exists rest, ext_sends script = ext_recvs script ++ rest.
+Proof. exact accepted_is_model_run. Qed.
+Print Assumptions C18_accepted_script_is_model_run.
+
 (** Non-vacuity.  bufferSize = 2, the code's configuration: a burst of
     cap + 3 = 5 sends with no receive (each send is followed by the one worker
     step the inner select needs), ending with 2 items in chanOut and 3 in the
